@@ -372,9 +372,26 @@ def model_float(x=0.0):
     return float(x)
 
 
+def _str_of_sint(x):
+    """decimal rendering of a symbolic integer: forks on sign and digit count (<= 12 digits)"""
+    from .core import mk_int
+
+    neg = bool(x < 0)
+    v = -x if neg else x
+    n = 1
+    while not (v < 10 ** n):
+        n += 1
+        if n > 12:
+            raise Unsupported("str() of a symbolic integer with more than 12 digits")
+    items = [mk_int((v.e / (10 ** (n - 1 - i))) % 10) for i in range(n)]
+    return sstr.mk_str((["-"] if neg else []) + items)
+
+
 def model_str(x=""):
     if isinstance(x, sstr.SStr):
         return x
+    if isinstance(x, SInt):
+        return _str_of_sint(x)
     if isinstance(x, Sym):
         raise Unsupported("str(%s)" % type(x).__name__)
     return str(x)
